@@ -61,6 +61,7 @@ func init() {
 		ops := splitNE(c.P("ops", "up0.1:10,round"))
 		upCredit, downCredit := int64(c.PI("upcredit", 1000000)), int64(c.PI("downcredit", 1000000))
 		db := c.P("db", "mem")
+		sequential := c.P("seq", "0") == "1" // ops run one after the other with quiescence in between
 		sc := &vrt.Scenario{
 			Opt:      vrt.Options{HorizonNs: int64(20 * time.Second), Delay: c.P("delay", "0") == "1"},
 			Classify: deadlockIs("no-deadlock"),
@@ -108,28 +109,44 @@ func init() {
 					rec      *ActiveUser
 				}
 				ws := map[string]*wired{}
-				for _, sp := range seshSpecs {
+				// admit: what a new connection does (GetUser, GetSession, attach); returns false when refused
+				admit := func(sp string, must bool) bool {
 					var u, s int
 					fmt.Sscanf(sp, "%d.%d", &u, &s)
 					user, err := panel.GetUser(uidOf(u))
 					if err != nil {
-						vrt.Fail("harness", "GetUser: %v", err)
+						if must {
+							vrt.Fail("harness", "GetUser: %v", err)
+						}
+						return false
 					}
 					srv, _, err := user.GetSession(uint32(s), plainSeshConfig())
 					if err != nil {
-						vrt.Fail("harness", "GetSession: %v", err)
+						if must {
+							vrt.Fail("harness", "GetSession: %v", err)
+						}
+						user.CloseSession(uint32(s), "")
+						return false
 					}
 					cli := mux.MakeSession(uint32(s), plainSeshConfig())
 					a, b := net.Pair(fmt.Sprintf("u%ds%d", u, s), true)
 					srv.AddConnection(b)
 					cli.AddConnection(a)
 					ws[sp] = &wired{u, uint32(s), srv, cli, user}
+					return true
+				}
+				for _, sp := range seshSpecs {
+					admit(sp, true)
 				}
 				var wg sync.WaitGroup
 				deleted, expired, topped := map[int]bool{}, map[int]bool{}, map[int]int64{}
 				closedByTest := map[string]bool{}
 				for i, op := range ops {
 					op := op
+					if sequential && i > 0 {
+						wg.Wait()
+						quiesce()
+					}
 					wg.Add(1)
 					vrt.Go(fmt.Sprintf("t%d:%s", i, op), func() {
 						defer wg.Done()
@@ -138,6 +155,10 @@ func init() {
 						case op == "round":
 							panel.updateUsageQueue()
 							panel.commitUpdate()
+						case strings.HasPrefix(op, "admit"):
+							var sp string
+							fmt.Sscanf(op, "admit%s", &sp)
+							admit(sp, false)
 						case strings.HasPrefix(op, "up"):
 							fmt.Sscanf(op, "up%d.%d:%d", &u, &s, &n)
 							w := ws[fmt.Sprintf("%d.%d", u, s)]
@@ -235,6 +256,16 @@ func init() {
 					}
 				}
 				check("after the concurrent phase", false)
+				// a completed upload that left a user without credit (or found it expired / deleted) has cut it
+				// off: whatever the overlap with closures and new connections, no session of such a user is live
+				if len(topped) == 0 {
+					for _, w := range ws {
+						up, down, ok := credits(w.u)
+						if (!ok || up <= 0 || down <= 0) && !w.srv.IsClosed() {
+							vrt.Fail("exhausted-users-cut-off", "at quiescence user %d has credit %d/%d (exists=%v) in the database, yet its session %d is live", w.u, up, down, ok, w.s)
+						}
+					}
+				}
 				// one further round after traffic has stopped
 				anyClosed := len(closedByTest) > 0
 				panel.updateUsageQueue()
@@ -250,6 +281,22 @@ func init() {
 					}
 					if !cut && !closedByTest[fmt.Sprintf("%d.%d", w.u, w.s)] && w.srv.IsClosed() && !anyClosed {
 						vrt.Fail("only-exhausted-users-cut-off", "user %d has credit (%d/%d) yet its session %d was closed: %q", w.u, up, down, w.s, w.srv.TerminalMsg())
+					}
+				}
+				if sequential && len(topped) == 0 {
+					// what the server read from the user's connections is what must have been charged for upload,
+					// also when the user's last session was closed in between (its usage is parked and committed)
+					srvIn := map[int]int64{}
+					for _, cn := range net.Conns {
+						var u, s int
+						if n, _ := fmt.Sscanf(cn.Name, "u%ds%d/b", &u, &s); n == 2 && strings.HasSuffix(cn.Name, "/b") {
+							srvIn[u] += cn.BytesIn
+						}
+					}
+					for u := 0; u < 2; u++ {
+						if up, _, ok := credits(u); ok && upCredit-up != srvIn[u] {
+							vrt.Fail("charged-exactly-once", "sequential history %v: the server read %d bytes from user %d's connections, upload credit went down by %d", ops, srvIn[u], u, upCredit-up)
+						}
 					}
 				}
 				u0, d0, _ := credits(0)
@@ -279,6 +326,11 @@ func init() {
 			{Scenario: "panel.usage", Params: vx.P("sessions", "0.1", "ops", "up0.1:10,round,delete0"), Bound: b(2, 3), Weight: 6},
 			{Scenario: "panel.usage", Params: vx.P("sessions", "0.1", "ops", "up0.1:10,round,expire0"), Bound: b(2, 3), Weight: 6},
 			{Scenario: "panel.usage", Params: vx.P("sessions", "0.1", "ops", "up0.1:10,round,topup0"), Bound: b(2, 3), Weight: 6},
+			{Scenario: "panel.usage", Params: vx.P("sessions", "0.1", "ops", "up0.1:10,close0.1,round", "seq", "1"), Bound: 0, Weight: 3},
+			{Scenario: "panel.usage", Params: vx.P("sessions", "0.1,0.2", "ops", "up0.1:10,up0.2:7,close0.1,round,close0.2,round", "seq", "1"), Bound: 0, Weight: 3},
+			{Scenario: "panel.usage", Params: vx.P("sessions", "0.1", "ops", "up0.1:10,round,close0.1,admit0.2,up0.2:9,close0.2", "seq", "1", "db", "bolt"), Bound: 0, Weight: 3},
+			{Scenario: "panel.usage", Params: vx.P("sessions", "0.1", "ops", "up0.1:300,round,close0.1,admit0.2", "upcredit", "200", "delay", "1"), Bound: b(2, 3), Weight: 8},
+			{Scenario: "panel.usage", Params: vx.P("sessions", "0.1", "ops", "up0.1:300,round,admit0.2", "upcredit", "200", "delay", "1"), Bound: b(2, 3), Weight: 8},
 			{Scenario: "panel.usage", Params: vx.P("sessions", "0.1", "ops", "up0.1:10,down0.1:5,round", "db", "bolt"), Bound: b(1, 2), Weight: 9},
 			{Scenario: "panel.usage", Params: vx.P("sessions", "0.1", "ops", "up0.1:300,round", "upcredit", "200", "db", "bolt"), Bound: b(1, 2), Weight: 7},
 			{Scenario: "panel.usage", Params: vx.P("sessions", "0.1", "ops", "up0.1:10,round,expire0", "db", "bolt"), Bound: b(1, 2), Weight: 7},
